@@ -35,8 +35,8 @@ for p in ALL:
         text, ref, tech = LEVEL[p]
         checks.append({
             "property_id": p,
-            "quick_cmd": f"timeout 600 /venv/bin/python /verif/check {p} --tier quick",
-            "thorough_cmd": f"timeout 3000 /venv/bin/python /verif/check {p} --tier thorough",
+            "quick_cmd": f"timeout 900 /venv/bin/python /verif/check {p} --tier quick",
+            "thorough_cmd": f"timeout 3300 /venv/bin/python /verif/check {p} --tier thorough",
             "evidence_file": f"/verif/evidence/{p}.json",
             "replay_cmd_template": "/venv/bin/python /verif/check replay {path}",
             "engine": "hdl21-dsim",
